@@ -152,6 +152,16 @@ def main():
                "stragglers": 0}
         dirs = case["dirs"]
         collect(dirs)
+        pre = case.get("pre")
+        if pre:
+            # the file at this path held another configuration a moment ago and was loaded once; it is rewritten in place
+            # (same path, same process, within the same second) before the entry points run
+            with open(case["path"], "w", encoding="utf-8") as f:
+                f.write(pre["text"])
+            with contextlib.suppress(Exception):
+                anyio.run(load_config, case["path"], pre["name"])
+            with open(case["path"], "w", encoding="utf-8") as f:
+                f.write(pre["final"])
         for step in case["steps"]:
             ob = {"ep": step["ep"]}
             signal.alarm(STEP_TIMEOUT)
